@@ -392,6 +392,69 @@ def perturb(rng, entries, work, counters):
         counters['perturbation_raised'] = counters.get('perturbation_raised', 0) + 1
 
 
+def transient_copies(res, rng, entries, quick):
+    """
+    Transformed copies of one function that are derived, called once and dropped, alternately, as a tuning loop does: the
+    result of each call has to be the one the same derivation gives while both copies are held alive (no object of the first
+    copy can be mistaken for one of the second).  Freed copies make CPython reuse addresses, so anything the interpreter
+    remembers by identity of a dropped function / AST shows up here and nowhere else in the pool, whose functions live forever.
+    """
+    import gc
+    import fpy2 as fp
+    from fpy2 import strategies as S
+    from ..gen import run as genrun
+    pins = [fp.MPFloatContext(3), fp.FP64, fp.MPFloatContext(5, fp.RM.RTZ), fp.IEEEContext(4, 8)]
+    cands = [e for e in entries if e.get('mod') is not None and not e['name'].startswith('struct')]
+    rng.shuffle(cands)
+    done = 0
+    for e in cands:
+        if done >= (6 if quick else 40):
+            break
+        fn = e['fn']
+        args = e['args'][0]
+        derivs = []
+        for c in pins:
+            derivs.append(lambda c=c: S.monomorphize(fn, c))
+            derivs.append(lambda c=c: S.simplify(S.monomorphize(fn, c)))
+        held, refs = [], []
+        try:
+            for d in derivs:
+                g = d()
+                held.append(g)
+                refs.append(genrun.call(g, copy.deepcopy(args), ctx=None, timeout=8.0))
+        except Exception:
+            res.count('transient:derivation_refused')
+            continue
+        if any(r[0] == 'timeout' for r in refs):
+            continue
+        if len({repr(r) for r in refs}) < 2:
+            res.count('transient:copies_indistinguishable')
+            continue
+        done += 1
+        del held
+        gc.collect()
+        for step in range(60 if quick else 200):
+            j = rng.randrange(len(derivs)) if step % 3 else step // 3 % len(derivs)
+            g = derivs[j]()
+            r = genrun.call(g, copy.deepcopy(args), ctx=None, timeout=8.0)
+            del g
+            if step % 16 == 15:
+                gc.collect()
+            if r[0] == 'timeout':
+                continue
+            res.evaluations += 1
+            res.nontrivial += 1
+            res.count('transient:calls')
+            if repr(r) != repr(refs[j]):
+                res.violate({'property': PROP, 'monitor': 'history', 'problem': 'a freshly derived copy of a function returns something else than the same derivation did '
+                             'before other derived copies of that function were evaluated and dropped',
+                             'entry': e['name'], 'derivation': j, 'expected': str(refs[j])[:300], 'got': str(r)[:300],
+                             'source': e['program'].source[-1200:] if e.get('program') else None,
+                             'mechanism': {'monitor': 'history', 'kind': 'transient_copy'}})
+                break
+    res.count('transient:functions', done)
+
+
 class YieldInjector:
     """sys.monitoring LINE callback: in fpy2's interpreter / ops / number code, sleep(0) with probability p (thread-local RNG)"""
 
@@ -506,6 +569,7 @@ def shard(i: int, n: int, tier: str, seed: int) -> Result:
             note(ks, 'history', True)
         for k, v in counters.items():
             res.count('perturb:' + k, v)
+        transient_copies(res, rng, entries, quick)
 
         # -- schedules ----------------------------------------------------------------------------------
         nthreads = 8
